@@ -6,6 +6,7 @@
 -/
 import MocVerif.Lemmas.Canon
 import MocVerif.Model.MocSet
+import MocVerif.Model.Params
 import MocVerif.Lemmas.MocSetFile
 
 namespace Moc.C14
@@ -347,6 +348,16 @@ theorem make_spec (n : Nat) (l : List MsEntry) (s : MocSet) (h : msMake n l = so
   stated on the abstract list of entries, therefore hold of what is READ BACK from the bytes. -/
 section File
 open Moc.MsFile
+
+/-- The layout constants of the file model are the ones EXTRACTED from `crates/set/src/lib.rs` by this
+    run (`Model/Params.lean` is regenerated from the source): the identifier mask, the shifts of the
+    status and depth fields, the four status codes, the capacity / index / header geometry. -/
+theorem layout_constants :
+    Params.msIdMask = idMask ∧ Params.msStatusShift = 56 ∧ Params.msDepthShift = 48 ∧
+    Params.msVoid = 0 ∧ Params.msRemoved = 1 ∧ Params.msDeprecated = 2 ∧ Params.msValid = 3 ∧
+    (∀ n, capOf n = (n <<< Params.msCapShift) - 1) ∧ (∀ n, hdrBytes n = n <<< Params.msHdrShift) ∧
+    Params.msIndexShift + 1 = Params.msHdrShift := by
+  refine ⟨by decide, by decide, by decide, by decide, by decide, by decide, by decide, fun _ => rfl, fun _ => rfl, by decide⟩
 
 /-- **Composing then decomposing a metadata word** (`FlagDepthId`) gives back status, depth and the
     identifier on 48 bits, for every status on 2 bits and every depth on 8 bits. -/
